@@ -337,20 +337,22 @@ def collect_locals(body, out):
             for t in st.targets:
                 names_from_expr(t, tmp)
             for n in tmp:
-                out[n] = st.lineno
+                out.setdefault(n, st.lineno)
         elif isinstance(st, (ast.AnnAssign, ast.AugAssign)):
             tmp = set()
             names_from_expr(st.target, tmp)
             for n in tmp:
-                out[n] = st.lineno
+                out.setdefault(n, st.lineno)
         elif isinstance(st, (ast.For, ast.AsyncFor)):
             tmp = set()
             names_from_expr(st.target, tmp)
             for n in tmp:
-                out[n] = st.lineno
+                out.setdefault(n, st.lineno)
             collect_locals(st.body, out)
+            collect_locals(st.orelse, out)
         elif isinstance(st, ast.While):
             collect_locals(st.body, out)
+            collect_locals(st.orelse, out)
         elif isinstance(st, ast.If):
             collect_locals(st.body, out)
             collect_locals(st.orelse, out)
@@ -360,10 +362,12 @@ def collect_locals(body, out):
                     tmp = set()
                     names_from_expr(it.optional_vars, tmp)
                     for n in tmp:
-                        out[n] = st.lineno
+                        out.setdefault(n, st.lineno)
             collect_locals(st.body, out)
         elif isinstance(st, ast.Try):
             collect_locals(st.body, out)
+            for h in st.handlers:
+                collect_locals(h.body, out)
             collect_locals(st.orelse, out)
             collect_locals(st.finalbody, out)
 
@@ -375,6 +379,14 @@ def visit_expr_names(e, out):
         visit_expr_names(e.func, out)
         for a in e.args:
             visit_expr_names(a, out)
+        for k in e.keywords:
+            visit_expr_names(k.value, out)
+    elif isinstance(e, ast.BoolOp):
+        for v in e.values:
+            visit_expr_names(v, out)
+    elif isinstance(e, ast.Set):
+        for x in e.elts:
+            visit_expr_names(x, out)
     elif isinstance(e, ast.Attribute):
         visit_expr_names(e.value, out)
     elif isinstance(e, ast.BinOp):
@@ -407,6 +419,9 @@ def visit_stmt_names(st, out):
         visit_expr_names(st.value, out)
     elif isinstance(st, (ast.Assign, ast.AugAssign)):
         visit_expr_names(st.value, out)
+    elif isinstance(st, ast.AnnAssign):
+        if st.value is not None:
+            visit_expr_names(st.value, out)
     elif isinstance(st, ast.Return):
         if st.value is not None:
             visit_expr_names(st.value, out)
@@ -418,11 +433,19 @@ def visit_stmt_names(st, out):
             visit_stmt_names(s, out)
     elif isinstance(st, ast.While):
         visit_expr_names(st.test, out)
-        for s in st.body:
+        for s in st.body + st.orelse:
             visit_stmt_names(s, out)
     elif isinstance(st, (ast.For, ast.AsyncFor)):
         visit_expr_names(st.iter, out)
+        for s in st.body + st.orelse:
+            visit_stmt_names(s, out)
+    elif isinstance(st, ast.Try):
         for s in st.body:
+            visit_stmt_names(s, out)
+        for h in st.handlers:
+            for s in h.body:
+                visit_stmt_names(s, out)
+        for s in st.orelse + st.finalbody:
             visit_stmt_names(s, out)
     elif isinstance(st, (ast.With, ast.AsyncWith)):
         for it in st.items:
